@@ -589,6 +589,8 @@ func (b *builder) edge() {
 	m := b.newModule(f, "Edge")
 	b.addEnum(m, "RefAuto", "edge", "enum:auto-after-ref-to-auto", "A", "B", "C=@B", "D")
 	b.addEnum(m, "RefExpl", "edge", "enum:auto-after-ref-to-explicit", "P=4", "Q=@P", "R")
+	b.addEnum(m, "RefChain", "edge", "enum:auto-after-chain-of-refs", "P=3", "Q=@P", "R=@Q", "S", "T=@S", "U=@T", "V=@U", "W")
+	b.addEnum(m, "RefBack", "edge", "enum:ref-to-an-earlier-member-after-explicit", "A", "B=7", "C", "D=@A", "E", "F=@C", "G")
 	tr := b.addEnum(m, "Trail", "edge", "enum:trailing-comma", "TA", "TB")
 	tr.TrailingComma = true
 	b.addEnum(m, "One", "edge", "enum:single-max", "OA=0x7fffffff")
